@@ -114,12 +114,13 @@ Proof. reflexivity. Qed.
 Lemma rf_le : forall s ct, last_exp (record_failure s ct) = last_exp s.
 Proof. reflexivity. Qed.
 
-(* shape of failure_next_state *)
+(* shape of failure_next_state: it locks (except Unrestricted), strictly beyond ct, and the
+   lock never outlives its window: unlock_at <= reset_at *)
 Lemma fns_shape : forall p c ct, policy_ok p = true ->
   failure_next_state p c ct = Init /\ p = PUnrestricted \/
   exists r u, failure_next_state p c ct = Locked c r u /\ ct < u.
 Proof.
-  intros p c ct Hok. pose proof G_pos as HG. destruct p as [|step| |]; cbn [failure_next_state].
+  intros p c ct Hok. pose proof G_pos as HG. destruct p as [|step| |]; cbn [failure_next_state]; cbv zeta.
   - right. pose proof (window_end_eq ONEDAY ct ltac:(reflexivity)) as He.
     pose proof (div_hi ct (ONEDAY * G) ltac:(reflexivity)) as Hh.
     unfold of_secs.
@@ -137,30 +138,38 @@ Proof.
   - left. split; reflexivity.
 Qed.
 
-(* the two windowed policies: reset_at is the end of the window containing ct, and at or
-   beyond the cap the lock lasts until reset_at *)
+Lemma fns_le : forall p c ct c' r u, failure_next_state p c ct = Locked c' r u -> u <= r.
+Proof.
+  intros p c ct c' r u H. destruct p as [|step| |]; cbn [failure_next_state] in H; cbv zeta in H;
+    try discriminate; injection H as _ <- <-; try apply N.le_max_r. apply N.le_refl.
+Qed.
+
+(* the two windowed policies: reset_at is at or beyond the end of the window containing ct,
+   and at or beyond the cap the lock lasts exactly until that window end *)
 Lemma fns_window : forall p P cap c ct, limit_of p = Some (P, cap) ->
   0 < P /\ 1 <= cap /\
-  exists u, failure_next_state p c ct = Locked c ((ct / P + 1) * P) u /\ ct < u /\
-            (cap <= c -> u = (ct / P + 1) * P).
+  exists r u, failure_next_state p c ct = Locked c r u /\ (ct / P + 1) * P <= r /\ ct < u /\
+              u <= r /\ (cap <= c -> u = (ct / P + 1) * P /\ r = u).
 Proof.
   intros p P cap c ct Hl. pose proof G_pos as HG. destruct p as [|step| |]; cbn [limit_of] in Hl; try discriminate.
   - injection Hl as <- <-. split; [reflexivity|]. split; [lia|].
-    cbn [failure_next_state]. rewrite (window_end_eq ONEDAY ct ltac:(reflexivity)).
+    cbn [failure_next_state]. cbv zeta. rewrite (window_end_eq ONEDAY ct ltac:(reflexivity)).
     pose proof (div_hi ct (ONEDAY * G) ltac:(reflexivity)) as Hh. unfold of_secs.
-    destruct (c <? 3) eqn:E1; [apply N.ltb_lt in E1; eexists; split; [reflexivity|split; lia]|].
-    destruct (c <? 9) eqn:E2; [apply N.ltb_lt in E2; eexists; split; [reflexivity|split; lia]|].
-    destruct (c <? 25) eqn:E3; [apply N.ltb_lt in E3; eexists; split; [reflexivity|split; lia]|].
-    destruct (c <? 100) eqn:E4; [apply N.ltb_lt in E4; eexists; split; [reflexivity|split; lia]|].
-    eexists; split; [reflexivity|]. split; [exact Hh|reflexivity].
+    set (we := (ct / (ONEDAY * G) + 1) * (ONEDAY * G)) in *.
+    destruct (c <? 3) eqn:E1; [apply N.ltb_lt in E1; eexists; eexists; split; [reflexivity|repeat split; lia]|].
+    destruct (c <? 9) eqn:E2; [apply N.ltb_lt in E2; eexists; eexists; split; [reflexivity|repeat split; lia]|].
+    destruct (c <? 25) eqn:E3; [apply N.ltb_lt in E3; eexists; eexists; split; [reflexivity|repeat split; lia]|].
+    destruct (c <? 100) eqn:E4; [apply N.ltb_lt in E4; eexists; eexists; split; [reflexivity|repeat split; lia]|].
+    eexists; eexists; split; [reflexivity|]. repeat split; lia.
   - destruct (step =? 0) eqn:E0; [discriminate|]. apply N.eqb_neq in E0.
     injection Hl as <- <-. assert (Hs : 0 < step) by lia.
     split; [lia|]. split; [lia|].
-    cbn [failure_next_state]. rewrite (window_end_eq step ct Hs).
+    cbn [failure_next_state]. cbv zeta. rewrite (window_end_eq step ct Hs).
     pose proof (div_hi ct (step * G) ltac:(lia)) as Hh. unfold of_secs.
+    set (we := (ct / (step * G) + 1) * (step * G)) in *.
     destruct (3 <=? c) eqn:E1.
-    + eexists; split; [reflexivity|]. split; [exact Hh|reflexivity].
-    + apply N.leb_gt in E1. eexists; split; [reflexivity|]. split; lia.
+    + eexists; eexists; split; [reflexivity|]. repeat split; lia.
+    + apply N.leb_gt in E1. eexists; eexists; split; [reflexivity|]. repeat split; lia.
 Qed.
 
 (* ------------------------------------------------------------------ the rate limit *)
@@ -232,18 +241,18 @@ Section Rate.
       by (intros; apply N.mul_le_mono_r; lia).
     assert (Hk : k * P <= ct -> k <= ct / P) by (intros; apply div_ge; [exact HP|lia]).
     destruct (st s) as [|c r u|c r] eqn:Es; [|discriminate|]; rewrite Hp.
-    - destruct (fns_window p P cap 1 ct Hlim) as (_ & _ & u & -> & Hu & Hcu).
+    - destruct (fns_window p P cap 1 ct Hlim) as (_ & _ & r' & u & -> & Hr & Hu & Hur & Hcu).
       cbn [wf_st cover]. cbn [cover] in Hc.
       destruct (ct / P =? k) eqn:Ek;
         [apply N.eqb_eq in Ek; subst k|apply N.eqb_neq in Ek; rewrite N.add_0_r];
         (destruct Hc as [Hc|[H1 [H2|[]]]]);
-        repeat split; try lia; try solve [intros Hge; specialize (Hcu Hge); lia].
-    - destruct (fns_window p P cap (c + 1) ct Hlim) as (_ & _ & u & -> & Hu & Hcu).
+        repeat split; try lia; try solve [intros Hge; destruct (Hcu Hge); lia].
+    - destruct (fns_window p P cap (c + 1) ct Hlim) as (_ & _ & r' & u & -> & Hr & Hu & Hur & Hcu).
       cbn [wf_st cover fresh] in *.
       destruct (ct / P =? k) eqn:Ek;
         [apply N.eqb_eq in Ek; subst k|apply N.eqb_neq in Ek; rewrite N.add_0_r];
         (destruct Hc as [Hc|[H1 [H2|[H2 H3]]]]);
-        repeat split; try lia; try solve [intros Hge; specialize (Hcu Hge); lia].
+        repeat split; try lia; try solve [intros Hge; destruct (Hcu Hge); lia].
   Qed.
 
   Lemma rate_inv : forall l s now n, Inv s now n -> mono now l = true ->
@@ -321,8 +330,14 @@ Proof.
     right. exists r', u. split; [exact H1|exact H2].
 Qed.
 
-Lemma locked_partial : forall l s, policy_ok (pol s) = true ->
-  locked_ok false l (exec s l) = true.
+Lemma rf_le_reset : forall s ct c r u, st (record_failure s ct) = Locked c r u -> u <= r.
+Proof.
+  intros s ct c r u H. unfold record_failure in H. cbn [st] in H.
+  destruct (st s); apply fns_le in H; exact H.
+Qed.
+
+Lemma locked_full : forall l s, policy_ok (pol s) = true ->
+  locked_ok l (exec s l) = true.
 Proof.
   induction l as [|e l IH]; intros s Hok; [reflexivity|].
   cbn [exec]. pose proof (ts_pol s (ev_ct e) (ev_exp e)) as Hp1.
@@ -333,8 +348,10 @@ Proof.
     rewrite IH by (rewrite rf_pol, Hp1; exact Hok).
     destruct (rf_state s1 (ev_ct e) ltac:(rewrite Hp1; exact Hok) Hv) as [[H1 _]|(r & u & H1 & H2)];
       rewrite H1; [reflexivity|].
+    pose proof (rf_le_reset s1 (ev_ct e) _ r u H1) as Hur.
     apply N.ltb_lt in H2. rewrite H2. cbn [andb].
-    rewrite (refused_partial l (record_failure s1 (ev_ct e)) _ r u (N.min u r) H1 (N.le_refl _)).
+    replace (u <=? r) with true by (symmetry; apply N.leb_le; exact Hur). cbn [andb].
+    rewrite (refused_partial l (record_failure s1 (ev_ct e)) _ r u u H1) by (rewrite N.min_l; lia).
     reflexivity.
 Qed.
 
@@ -475,73 +492,44 @@ Proof.
 Qed.
 
 (* ------------------------------------------------------------------ failure_next_state meets its spec *)
-Lemma window_spec : forall w ct, 0 < w ->
-  let ra := (ct / (w * G) + 1) * (w * G) in
-  (ra mod (w * G) =? 0) && (secs ct * G <? ra) && (ra <=? secs ct * G + w * G) = true.
+Lemma wend_eq : forall w ct, 0 < w -> window_end w ct = wend w ct.
 Proof.
-  intros w ct Hw ra. pose proof G_pos as HG.
-  assert (HP : 0 < w * G) by lia.
-  assert (H1 : ra mod (w * G) = 0) by (unfold ra; apply N.mod_mul; lia).
-  pose proof (div_hi ct (w * G) HP) as H2. fold ra in H2.
-  pose proof (div_lo ct G HG) as H3.
-  assert (H4 : ct / (w * G) * (w * G) <= ct / G * G).
-  { rewrite (step_index w ct Hw). unfold secs.
-    pose proof (div_lo (ct / G) w Hw) as H5.
-    replace (ct / G / w * (w * G)) with (ct / G / w * w * G) by lia.
-    apply N.mul_le_mono_r. exact H5. }
-  unfold secs. rewrite H1.
-  replace (0 =? 0) with true by reflexivity.
-  replace (ct / G * G <? ra) with true by (symmetry; apply N.ltb_lt; lia).
-  replace (ra <=? ct / G * G + w * G) with true by (symmetry; apply N.leb_le; unfold ra; lia).
-  reflexivity.
+  intros w ct Hw. rewrite (window_end_eq w ct Hw). unfold wend. rewrite (step_index w ct Hw). reflexivity.
 Qed.
+
+Lemma wend_gt : forall w ct, 0 < w -> ct < wend w ct.
+Proof.
+  intros w ct Hw. rewrite <- (wend_eq w ct Hw), (window_end_eq w ct Hw).
+  apply div_hi. pose proof G_pos. lia.
+Qed.
+
+Ltac prop_hyps :=
+  repeat match goal with
+  | H : (_ <? _) = true |- _ => apply N.ltb_lt in H
+  | H : (_ <? _) = false |- _ => apply N.ltb_ge in H
+  | H : (_ <=? _) = true |- _ => apply N.leb_le in H
+  | H : (_ <=? _) = false |- _ => apply N.leb_gt in H
+  end.
+Ltac bool_atoms :=
+  rewrite ?N.eqb_refl; cbn [andb]; repeat (apply andb_true_iff; split); try reflexivity;
+  first [apply N.ltb_lt | apply N.leb_le | apply N.eqb_eq]; try apply N.le_max_r; nia.
 
 Lemma next_spec_ok : forall p c ct, policy_ok p = true ->
   next_spec p c ct (failure_next_state p c ct) = true.
 Proof.
   intros p c ct Hok. pose proof G_pos as HG.
-  destruct p as [|step| |]; cbn [failure_next_state next_spec].
-  - rewrite (window_end_eq ONEDAY ct ltac:(reflexivity)).
-    pose proof (window_spec ONEDAY ct ltac:(reflexivity)) as Hw. cbv zeta in Hw.
-    pose proof (div_hi ct (ONEDAY * G) ltac:(reflexivity)) as Hh.
-    apply andb_true_iff in Hw as [Hw Hw3]. apply andb_true_iff in Hw as [Hw1 Hw2].
-    unfold of_secs.
-    assert (Hlt : forall n, 1 <= n -> ct <? ct + n * G = true) by (intros; apply N.ltb_lt; nia).
-    assert (Hge : forall n, 1 <= n -> ct + G <=? ct + n * G = true) by (intros; apply N.leb_le; nia).
-    assert (Hle : forall n, n <= 10 -> ct + n * G <=? ct + 10 * G = true) by (intros; apply N.leb_le; nia).
-    destruct (c <? 3) eqn:E1; [apply N.ltb_lt in E1|apply N.ltb_ge in E1].
-    { cbn [next_spec]. rewrite N.eqb_refl, Hw1, Hw2, Hw3, Hlt, Hge, Hle by lia.
-      replace (100 <=? c) with false by (symmetry; apply N.leb_gt; lia). reflexivity. }
-    destruct (c <? 9) eqn:E2; [apply N.ltb_lt in E2|apply N.ltb_ge in E2].
-    { rewrite N.eqb_refl, Hw1, Hw2, Hw3, Hlt, Hge, Hle by lia.
-      replace (100 <=? c) with false by (symmetry; apply N.leb_gt; lia). reflexivity. }
-    destruct (c <? 25) eqn:E3; [apply N.ltb_lt in E3|apply N.ltb_ge in E3].
-    { rewrite N.eqb_refl, Hw1, Hw2, Hw3, Hlt, Hge, Hle by lia.
-      replace (100 <=? c) with false by (symmetry; apply N.leb_gt; lia). reflexivity. }
-    destruct (c <? 100) eqn:E4; [apply N.ltb_lt in E4|apply N.ltb_ge in E4].
-    { rewrite N.eqb_refl, Hw1, Hw2, Hw3, Hlt, Hge, Hle by lia.
-      replace (100 <=? c) with false by (symmetry; apply N.leb_gt; lia). reflexivity. }
-    rewrite N.eqb_refl, Hw1, Hw2, Hw3.
-    replace (100 <=? c) with true by (symmetry; apply N.leb_le; lia).
-    replace (ct <? (ct / (ONEDAY * G) + 1) * (ONEDAY * G)) with true by (symmetry; apply N.ltb_lt; exact Hh).
-    rewrite N.eqb_refl. reflexivity.
+  destruct p as [|step| |]; cbn [failure_next_state next_spec]; cbv zeta.
+  - rewrite (wend_eq ONEDAY ct ltac:(reflexivity)).
+    pose proof (wend_gt ONEDAY ct ltac:(reflexivity)) as Hh.
+    set (we := wend ONEDAY ct) in *. unfold of_secs.
+    destruct (c <? 3) eqn:E1; [|destruct (c <? 9) eqn:E2; [|destruct (c <? 25) eqn:E3; [|destruct (c <? 100) eqn:E4]]];
+      destruct (100 <=? c) eqn:E5; prop_hyps; try lia; bool_atoms.
   - cbn [policy_ok] in Hok. apply N.ltb_lt in Hok.
-    rewrite (window_end_eq step ct Hok).
-    pose proof (window_spec step ct Hok) as Hw. cbv zeta in Hw.
-    pose proof (div_hi ct (step * G) ltac:(lia)) as Hh.
-    apply andb_true_iff in Hw as [Hw Hw3]. apply andb_true_iff in Hw as [Hw1 Hw2].
-    unfold of_secs.
-    destruct (3 <=? c) eqn:E1.
-    + rewrite N.eqb_refl, Hw1, Hw2, Hw3.
-      replace (ct <? (ct / (step * G) + 1) * (step * G)) with true by (symmetry; apply N.ltb_lt; exact Hh).
-      rewrite N.eqb_refl. reflexivity.
-    + rewrite N.eqb_refl, Hw1, Hw2, Hw3.
-      replace (ct <? ct + 1 * G) with true by (symmetry; apply N.ltb_lt; lia).
-      replace (ct + 1 * G =? ct + G) with true by (symmetry; apply N.eqb_eq; lia).
-      reflexivity.
-  - unfold of_secs. rewrite N.eqb_refl.
-    replace (ct + 1 * G =? ct + G) with true by (symmetry; apply N.eqb_eq; lia).
-    rewrite N.eqb_refl. reflexivity.
+    rewrite (wend_eq step ct Hok).
+    pose proof (wend_gt step ct Hok) as Hh.
+    set (we := wend step ct) in *. unfold of_secs.
+    destruct (3 <=? c) eqn:E1; prop_hyps; bool_atoms.
+  - unfold of_secs. bool_atoms.
   - reflexivity.
 Qed.
 
@@ -625,15 +613,14 @@ Definition case_ok (c : case) : bool :=
   end.
 
 Lemma agree_property : forall c, case_ok c = true -> agree c = true ->
-  pcheck c || known c = true.
+  pcheck c = true.
 Proof.
-  intros [p count ct impl|p s0 le0 ops impl|src p evs impl] Hok Ha; cbn [case_ok agree pcheck known] in *.
-  - apply lstate_eqb_eq in Ha. subst impl. rewrite next_spec_ok by exact Hok. reflexivity.
+  intros [p count ct impl|p s0 le0 ops impl|src p evs impl] Hok Ha; cbn [case_ok agree pcheck] in *.
+  - apply lstate_eqb_eq in Ha. subst impl. apply next_spec_ok. exact Hok.
   - apply (list_eqb_eq _ _ sobs_eqb_eq) in Ha. subst impl.
-    rewrite orb_false_r. apply (raw_ok_run ops (mk s0 p le0)).
+    apply (raw_ok_run ops (mk s0 p le0)).
   - apply (list_eqb_eq _ _ obs_eqb_eq) in Ha. subst impl.
-    rewrite (rest_ok_new p evs Hok), (locked_partial evs (new p) Hok).
-    destruct (locked_ok true evs (exec (new p) evs)); reflexivity.
+    rewrite (rest_ok_new p evs Hok), (locked_full evs (new p) Hok). reflexivity.
 Qed.
 
 (* ------------------------------------------------------------------ Prop-level forms *)
@@ -714,4 +701,47 @@ Proof.
   cbn [never_shorter is_failed] in Hns.
   replace (c2 <=? 1) with false in Hns by (symmetry; apply N.leb_gt; exact Hc2).
   rewrite andb_true_r in Hns. apply N.ltb_lt. exact Hns.
+Qed.
+
+(* ------------------------------------------------------------------ the full first sentence *)
+Lemma locked_until_unlock : forall s e s' c r u l, policy_ok (pol s) = true ->
+  attempt s e = (s', Failed) -> st s' = Locked c r u ->
+  (forall e2, In e2 l -> ev_ct e2 <= u /\ quiet_for (last_exp s') e2 = true) ->
+  ev_ct e < u /\ u <= r /\
+  forall ob, In ob (exec s' l) -> ob = (Refused, Locked c r u, last_exp s').
+Proof.
+  intros s e s' c r u l Hok Ha Hs Hl.
+  destruct (attempt_cases s e) as [[Ha' _]|[[Ha' _]|[Ha' Hv]]]; rewrite Ha in Ha'; try discriminate.
+  injection Ha' as ->.
+  set (s1 := apply_time_step s (ev_ct e) (ev_exp e)) in *.
+  pose proof (rf_le_reset s1 (ev_ct e) c r u Hs) as Hur.
+  assert (Hok1 : policy_ok (pol s1) = true) by (unfold s1; rewrite ts_pol; exact Hok).
+  split; [|split; [exact Hur|]].
+  - destruct (rf_state s1 (ev_ct e) Hok1 Hv) as [[H1 _]|(r' & u' & H1 & H2)]; rewrite H1 in Hs; [discriminate|].
+    injection Hs as _ _ <-. exact H2.
+  - apply (locked_until_min l (record_failure s1 (ev_ct e)) c r u Hs).
+    intros e2 He2. destruct (Hl e2 He2) as [H1 H2]. split; [lia|exact H2].
+Qed.
+
+(* without administrator expiry every lock a history produces has unlock_at <= reset_at *)
+Definition lock_wf (x : lstate) : Prop :=
+  match x with Locked _ r u => u <= r | _ => True end.
+
+Lemma final_lock_wf : forall l s, lock_wf (st s) -> quiet_all (last_exp s) l = true ->
+  lock_wf (st (final s l)).
+Proof.
+  induction l as [|e l IH]; intros s Hw Hq; [exact Hw|].
+  cbn [quiet_all] in Hq. apply andb_true_iff in Hq as [Hq1 Hq2]. cbn [final].
+  pose proof (attempt_cases s e) as Hc. cbv zeta in Hc. rewrite (ts_quiet s e Hq1), ts_none in Hc.
+  set (s1 := mk (step_state (st s) (ev_ct e)) (pol s) (last_exp s)) in *.
+  assert (Hw1 : lock_wf (st s1)).
+  { unfold s1. cbn [st]. destruct (st s) as [|c r u|c r]; cbn [step_state lock_wf] in *; [exact I| |].
+    - destruct (r <? ev_ct e); [exact I|]. destruct (u <? ev_ct e); [exact I|exact Hw].
+    - destruct (r <? ev_ct e); exact I. }
+  destruct Hc as [[Ha _]|[[Ha _]|[Ha _]]]; rewrite Ha; cbn [fst].
+  - apply IH; [exact Hw1|exact Hq2].
+  - apply IH; [exact Hw1|exact Hq2].
+  - apply IH; [|rewrite rf_le; exact Hq2].
+    destruct (st (record_failure s1 (ev_ct e))) as [|c r u|c r] eqn:Es; cbn [lock_wf]; try exact I.
+    apply (rf_le_reset s1 (ev_ct e) c r u Es).
 Qed.
